@@ -11,6 +11,7 @@ mod ptot;
 mod rsim;
 mod sx;
 mod tmpl;
+mod wd;
 mod swev;
 
 fn main() {
